@@ -371,4 +371,117 @@ theorem inputs_unchanged (r : Rep) (x : Val) (i j : Int) (upd : V)
     ∀ (before : Sem), before = den r → (den r).len = before.len ∧ ∀ k, (den r).el k = before.el k := by
   intro before hb; subst hb; exact ⟨rfl, fun _ => rfl⟩
 
+/-! ### round 3: the chain invariant carries the usize bound; swap; scans; nth; to_stack; eq -/
+
+/-- Every midpoint stored in a well-formed chain — also one whose last part is infinite — is positive, fits
+`usize`, and the midpoints increase: the `usize` arithmetic of `get`/`len` on chains cannot overflow. -/
+theorem chain_midpoints_fit (parts : List Rep) (mids : List Nat) (h : (Rep.chain parts mids).wf) :
+    ∀ m ∈ mids, 0 < m ∧ m < USIZE := by
+  simp only [Rep.wf] at h
+  intro m hm
+  have := (chainOk_fit parts mids 0 h.2.1).2 m hm
+  omega
+
+/-- `swap` equals the list swap: both indices are normalised FIRST (negative ones count from the end; an
+out-of-range one is an error value, the first index being checked first), equal positions give the sequence
+itself, and only then the smaller / larger normalised position delimit the copied runs
+(`pre ++ [x_hi] ++ mid ++ [x_lo] ++ post`, see `swapResult`). -/
+theorem swap_list (r : Rep) (h : r.wf) (n : Nat) (hn : (den r).len = some n) (i j : Int) :
+    swapB r i j = (match valueToIdx (.fin n) i with
+      | .err m => .err m
+      | .panic m => .panic m
+      | .ok i1 => match valueToIdx (.fin n) j with
+        | .err m => .err m
+        | .panic m => .panic m
+        | .ok i2 => if i1 = i2 then .seq r else swapResult (den r) n (min i1 i2) (max i1 i2)) :=
+  swap_spec r h n hn i j
+
+/-- mixed-sign indices: `swap(2, -3)` on three elements exchanges positions 2 and 0 (ordering the raw indices
+`-3 < 2` first would be wrong), and `swap(0, -3)` is the sequence itself -/
+example :
+    swapB (.array [.int 1, .int 2, .int 3]) 2 (-3) = .seq (.array [.int 3, .int 2, .int 1]) ∧
+    swapB (.array [.int 1, .int 2, .int 3]) 0 (-3) = .seq (.array [.int 1, .int 2, .int 3]) ∧
+    swapB (.array [.int 1, .int 2, .int 3]) (-1) 0 = .seq (.array [.int 3, .int 2, .int 1]) ∧
+    swapB (.array [.int 1, .int 2, .int 3]) 0 3 = .err "index out of bounds" := ⟨rfl, rfl, rfl, rfl⟩
+
+/-- `take_while((x)->{x < c})`: if `j` is the first position whose element fails the predicate (all earlier
+elements are ints satisfying it), the result is `slice(0, j)` — by `slice_den` the first `j` elements —, the scan
+having consumed `j + 1` search permits: it succeeds with more than `j` permits and runs out with `j` or fewer.
+If no element of a finite sequence fails, the result is `slice(0, len)`, the whole sequence. -/
+theorem take_while_prefix (r : Rep) (h : r.wf) (c : Int) (fuel : Nat) :
+    (∀ j, (den r).valid j → stops (den r) c false j → (∀ k, k < j → passes (den r) c false k) →
+      (j < fuel → takeWhileLtB r c fuel = sliceB r 0 (some j)) ∧
+      (fuel ≤ j → takeWhileLtB r c fuel = .panic "out of fuel")) ∧
+    (∀ n, (den r).len = some n → (∀ k, k < n → passes (den r) c false k) → n < fuel →
+      takeWhileLtB r c fuel = sliceB r 0 (some n)) := by
+  refine ⟨fun j hv hj hp => ⟨fun hf => ?_, fun hf => ?_⟩, fun n hn hp hf => ?_⟩
+  · rw [takeWhile_unfold r h, scan_found r h c false j hv hj fuel 0 (Nat.zero_le _) (fun k _ hk => hp k hk) (by omega)]
+  · rw [takeWhile_unfold r h, scan_out_of_fuel r h c false j hv fuel 0 (Nat.zero_le _) (fun k _ hk => hp k hk) (by omega)]
+  · rw [takeWhile_unfold r h, scan_end r h c false n hn fuel 0 (Nat.zero_le _) (fun k _ hk => hp k hk) (by omega), hn]
+
+/-- `skip_until((x)->{x < c})`: with `j` the first position whose element satisfies the predicate the result is
+`slice(j, None)` — the suffix from `j` —, again for `j + 1` search permits; if no element of a finite sequence
+satisfies it the result is `slice(len, None)`, the empty sequence. -/
+theorem skip_until_suffix (r : Rep) (h : r.wf) (c : Int) (fuel : Nat) :
+    (∀ j, (den r).valid j → stops (den r) c true j → (∀ k, k < j → passes (den r) c true k) →
+      (j < fuel → skipUntilLtB r c fuel = sliceB r j none) ∧
+      (fuel ≤ j → skipUntilLtB r c fuel = .panic "out of fuel")) ∧
+    (∀ n, (den r).len = some n → (∀ k, k < n → passes (den r) c true k) → n < fuel →
+      skipUntilLtB r c fuel = sliceB r n none) := by
+  refine ⟨fun j hv hj hp => ⟨fun hf => ?_, fun hf => ?_⟩, fun n hn hp hf => ?_⟩
+  · rw [skipUntil_unfold r h, scan_found r h c true j hv hj fuel 0 (Nat.zero_le _) (fun k _ hk => hp k hk) (by omega)]
+  · rw [skipUntil_unfold r h, scan_out_of_fuel r h c true j hv fuel 0 (Nat.zero_le _) (fun k _ hk => hp k hk) (by omega)]
+  · rw [skipUntil_unfold r h, scan_end r h c true n hn fuel 0 (Nat.zero_le _) (fun k _ hk => hp k hk) (by omega), hn]; rfl
+
+/-- `nth(k, (x)->{x < c})` on a finite sequence whose elements are the ints `xs`: the `k`-th element of the
+filtered list for `k ≥ 0`, the `(-k-1)`-th element of the filtered reversed list for `k < 0`, `none` beyond
+(`first` is `k = 0`, `last` is `k = -1`; include.rs:461-467) -/
+theorem nth_list (r : Rep) (h : r.wf) (xs : List Int) (hn : (den r).len = some xs.length)
+    (hel : ∀ k (hk : k < xs.length), (den r).el k = .ok (.int xs[k])) (k c : Int) (fuel : Nat)
+    (hf : xs.length < fuel) :
+    nthLtB r k c fuel =
+      if k < 0 then .opt (((xs.reverse.filter (fun x => decide (x < c)))[(-k - 1).toNat]?).map Val.int)
+      else .opt (((xs.filter (fun x => decide (x < c)))[k.toNat]?).map Val.int) := by
+  rw [nth_unfold_fin r h xs.length hn]
+  by_cases hk : k < 0
+  · simp only [hk, if_true]
+    have := nthBwd_list r h c xs.length hn xs.reverse (-k - 1).toNat (by simp) (fun j hj => by
+      simp only [List.length_reverse] at hj ⊢
+      rw [List.getElem_reverse]
+      exact hel _ (by omega))
+    simpa using this
+  · simp only [hk, if_false]
+    exact nthFwd_list r h c xs.length hn xs 0 k.toNat fuel (by omega) (fun j hj => by simpa using hel j hj) hf
+
+/-- a negative match index on an infinite sequence is an error value -/
+theorem nth_infinite_negative (r : Rep) (h : r.wf) (hn : (den r).len = none) (k c : Int) (fuel : Nat) (hk : k < 0) :
+    nthLtB r k c fuel = .err "negative match index cannot be used with infinite sequence" :=
+  nth_inf_negative r h hn k c fuel hk
+
+example : nthLtB (.array [.int 5, .int 1, .int 7, .int 2]) (-1) 3 10 = .opt (some (.int 2)) ∧
+    nthLtB (.range 0 10 1) 2 100 20 = .opt (some (.int 2)) ∧
+    nthLtB (.array [.int 5]) 0 3 10 = .opt none := ⟨rfl, rfl, rfl⟩
+
+/-- `to_stack` pushes the elements of the denoted list in order; an infinite sequence is an error value -/
+theorem to_stack_list (r : Rep) (h : r.wf) :
+    (∀ n, (den r).len = some n → toStackB r = (match tupAll (elemsFrom (den r) 0 n) with
+      | .ok vs => .stack vs
+      | .err m => .err m
+      | .panic m => .panic m)) ∧
+    ((den r).len = none → toStackB r = infErr) := toStack_spec r h
+
+/-- `==` on sequences of different lengths is `false` without looking at elements; on finite sequences of the
+same length whose elements evaluate to `xs`, `ys` it is list equality — whatever the two representations -/
+theorem eq_is_list_eq (a b : Rep) (ha : a.wf) (hb : b.wf) (fuel : Nat) :
+    ((den a).len ≠ (den b).len → eqB a b fuel = .bool false) ∧
+    (∀ (xs ys : List Val), xs.length = ys.length →
+      (den a).len = some xs.length → (den b).len = some ys.length →
+      (∀ k (hk : k < xs.length), (den a).el k = .ok xs[k]) →
+      (∀ k (hk : k < ys.length), (den b).el k = .ok ys[k]) → xs.length < fuel →
+      eqB a b fuel = .bool (xs == ys)) :=
+  ⟨eq_len_differ a b ha hb fuel, fun xs ys hl hna hnb hxa hyb hf => eq_list a b ha hb xs ys hl hna hnb hxa hyb fuel hf⟩
+
+example : eqB .count (.array [.int 0]) 10 = .bool false ∧
+    eqB (.array [.int 0, .int 1]) (.range 0 3 1) 10 = .bool false := ⟨rfl, rfl⟩
+
 end XrayModel.C15
